@@ -50,15 +50,15 @@ ExpWindow(B, w) ==
                    end |-> IF "end" \in DOMAIN fr THEN ExpBound(fr.end) ELSE NoneG]]
 
 ExpTable(B, t) ==
-  CASE t.k = "table" -> [k |-> "table", names |-> t.t, a |-> "", hints |-> <<>>]
-    [] t.k = "alias" -> [k |-> "table", names |-> t.t, a |-> t.a, hints |-> <<>>]
+  CASE t.k = "table" -> [k |-> "table", names |-> t.t, a |-> "", hints |-> <<>>, sample |-> NoneG]
+    [] t.k = "alias" -> [k |-> "table", names |-> t.t, a |-> t.a, hints |-> <<>>, sample |-> NoneG]
     [] t.k = "subq" -> [k |-> "subq", q |-> Expected(B, t.q), a |-> t.a]
     [] t.k = "values" -> [k |-> "values", a |-> t.a,
                           rows |-> [i \in DOMAIN t.rows |-> [row |-> [j \in DOMAIN t.rows[i] |-> CanonVal(t.rows[i][j])], rowkw |-> B = "mysql"]]]
 
 HintToks(h) ==
   <<CASE h.type = "use_index" -> "USE" [] h.type = "ignore_index" -> "IGNORE" [] OTHER -> "FORCE", "INDEX">>
-  \o (CASE h.scope = "Join" -> <<"FOR", "JOIN">> [] h.scope = "OrderBy" -> <<"FOR", "ORDER BY">> [] h.scope = "GroupBy" -> <<"FOR", "GROUP BY">> [] OTHER -> <<>>)
+  \o (CASE h.scope = "Join" -> <<"FOR JOIN">> [] h.scope = "OrderBy" -> <<"FOR ORDER BY">> [] h.scope = "GroupBy" -> <<"FOR GROUP BY">> [] OTHER -> <<>>)
   \o <<"(", h.name, ")">>
 
 ExpWith(B, w) ==
@@ -77,6 +77,9 @@ ExpCore(B, s) ==
       hints == IF B = "mysql" THEN FlatSeq([i \in DOMAIN s.hints |-> HintToks(s.hints[i])]) ELSE <<>>
       from2 == IF Len(fromT) > 0 /\ Len(hints) > 0 /\ fromT[Len(fromT)].k = "table"
                THEN [fromT EXCEPT ![Len(fromT)].hints = hints] ELSE fromT
+      from3 == IF B = "pg" /\ ~IsNone(s.sample) /\ Len(from2) > 0 /\ from2[Len(from2)].k = "table"
+               THEN [from2 EXCEPT ![Len(from2)].sample = [k |-> "sample", method |-> s.sample.method, pct |-> NatToStr(s.sample.pct),
+                                                          rep |-> IF IsNone(s.sample.rep) THEN "" ELSE NatToStr(s.sample.rep.v)]] ELSE from2
   IN [distinct |-> IF IsNone(s.distinct) THEN NoneG ELSE IF s.distinct.k = "distinct" THEN [k |-> "distinct"] ELSE [k |-> "on", cols |-> s.distinct.cols],
       items |-> [i \in DOMAIN s.selects |->
                    [e |-> Canon(B, s.selects[i].e),
@@ -84,7 +87,7 @@ ExpCore(B, s) ==
                              ELSE IF s.selects[i].w.k = "name" THEN [k |-> "name", n |-> s.selects[i].w.n]
                              ELSE [k |-> "def", w |-> ExpWindow(B, s.selects[i].w.w)],
                     alias |-> s.selects[i].a]],
-      from |-> from2,
+      from |-> from3,
       joins |-> [i \in DOMAIN s.joins |->
                    [jt |-> CASE s.joins[i].jt = "Join" -> "JOIN" [] s.joins[i].jt = "Cross" -> "CROSS JOIN" [] s.joins[i].jt = "Inner" -> "INNER JOIN"
                               [] s.joins[i].jt = "Left" -> "LEFT JOIN" [] s.joins[i].jt = "Right" -> "RIGHT JOIN" [] OTHER -> "FULL OUTER JOIN",
@@ -157,7 +160,7 @@ Expected(B, s) ==
              from == IF isUpd THEN s.from ELSE <<>>
              myJoin == B = "mysql" /\ Len(from) > 0
          IN [kind |-> s.kind, with |-> ExpWith(B, s.with),
-             table |-> IF IsNone(s.table) THEN NoneG ELSE [k |-> "table", names |-> s.table.v, a |-> "", hints |-> <<>>],
+             table |-> IF IsNone(s.table) THEN NoneG ELSE [k |-> "table", names |-> s.table.v, a |-> "", hints |-> <<>>, sample |-> NoneG],
              join |-> IF myJoin THEN (IF Len(from) = 1 THEN [jt |-> "JOIN", t |-> ExpTable(B, from[1]), on |-> ExpHolder(B, s.where)]
                                       ELSE [jt |-> "JOIN", multi |-> [i \in DOMAIN from |-> ExpTable(B, from[i])], on |-> ExpHolder(B, s.where)])
                       ELSE NoneG,
@@ -176,6 +179,10 @@ Unsupported(B, s) ==
   CASE s.kind = "select" ->
          (~IsNone(s.distinct) /\ s.distinct.k = "on" /\ B # "pg")
          \/ (B = "mysql" /\ \E i \in DOMAIN s.joins : s.joins[i].jt = "FullOuter")
+         \/ (B = "sqlite" /\ \E i \in DOMAIN s.joins : s.joins[i].lateral)                      \* SQLite has no LATERAL
+         \* MySQL index hints qualify a base table; the builder writes them after the last FROM item whatever it is
+         \/ (B = "mysql" /\ Len(s.hints) > 0 /\ (Len(s.from) = 0 \/ s.from[Len(s.from)].k \notin {"table", "alias"}))
+         \/ (B = "pg" /\ ~IsNone(s.sample) /\ (Len(s.from) = 0 \/ s.from[Len(s.from)].k \notin {"table", "alias"}))   \* TABLESAMPLE qualifies a base table
          \/ (B = "sqlite" /\ \E i \in DOMAIN s.unions : Len(s.unions[i].q.orders) > 0 \/ ~IsNone(s.unions[i].q.limit) \/ ~IsNone(s.unions[i].q.offset) \/ Len(s.unions[i].q.unions) > 0 \/ ~IsNone(s.unions[i].q.with))
          \/ (\E i \in DOMAIN s.unions : Unsupported(B, s.unions[i].q))
          \/ (\E i \in DOMAIN s.from : s.from[i].k = "subq" /\ Unsupported(B, s.from[i].q))
